@@ -100,10 +100,22 @@ Record opres := mkRes {
   r_ok : bool      (* err == nil *)
 }.
 
+(* the fallback condition of incremental.go commitStatus after a revision mismatch:
+   (currentStatus.Kind == Pending && currentStatus.ID == result.id) ||
+   (isRetry && currentStatus.Kind == Error)   with isRetry := result.rev != result.origRev.
+   efb = false: the variant before fix 8844901 (no Error-status fallback for retries). *)
+Definition fallback_ok (efb : bool) (cur : obj) (r : opres) : bool :=
+  match o_kind cur with
+  | Pending => o_sid cur =? r_id r
+  | Error => efb && negb (r_rev r =? r_orig r)
+  | _ => false
+  end.
+
 (* one iteration of the loop of incremental.go commitStatus.
    fixed = true: the code as it is (origRev carried through);
-   fixed = false: the variant before fix cd98c3d (retries.Add(..., newRevision, result.rev, ...)). *)
-Definition commit_one (fixed : bool) (now : N) (tq : table * retries) (r : opres) : table * retries :=
+   fixed = false: the variant before fix cd98c3d (retries.Add(..., newRevision, result.rev, ...)).
+   efb: see fallback_ok. *)
+Definition commit_one (fixed efb : bool) (now : N) (tq : table * retries) (r : opres) : table * retries :=
   let (t, q) := tq in
   let (t1, id) := t_fresh_id t in                                (* StatusDone()/StatusError(err) *)
   let st := if r_ok r then Done else Error in
@@ -112,22 +124,21 @@ Definition commit_one (fixed : bool) (now : N) (tq : table * retries) (r : opres
     | (t', CasOk) => (t', true)
     | (t', CasNotFound) => (t', false)
     | (t', CasMismatch cur _) =>
-      (* the object had changed: only the status changed iff still Pending with the same id *)
-      match o_kind cur with
-      | Pending => if o_sid cur =? r_id r then (t_insert t' (with_status cur st id), true) else (t', false)
-      | _ => (t', false)
-      end
+      (* the object had changed: apply the result to the CURRENT object iff only the status changed *)
+      if fallback_ok efb cur r then (t_insert t' (with_status cur st id), true) else (t', false)
     end in
   if negb (r_ok r) && wrote
   then (t2, r_add q (r_obj r) (t_rev t2) (if fixed then r_orig r else r_rev r) false now)
   else (t2, q).
 
 (* incremental.go commitStatus (the map iteration order of `results` is modelled as processing order) *)
-Definition commit_status_gen (fixed : bool) (now : N) (t : table) (q : retries) (res : list opres)
-  : table * retries := fold_left (commit_one fixed now) res (t, q).
-Definition commit_status := commit_status_gen true.
-(* pre-fix variant, kept for the refutation low_watermark_drift_refuted *)
-Definition commit_status_old := commit_status_gen false.
+Definition commit_status_gen (fixed efb : bool) (now : N) (t : table) (q : retries) (res : list opres)
+  : table * retries := fold_left (commit_one fixed efb now) res (t, q).
+Definition commit_status := commit_status_gen true true.
+(* variant before fix cd98c3d, kept for the refutation low_watermark_drift_refuted *)
+Definition commit_status_old := commit_status_gen false false.
+(* variant before fix 8844901, kept for the refutation convergence_refuted_by_foreign_status_write *)
+Definition commit_status_nofallback_old := commit_status_gen true false.
 
 (* ------------------------------------------------------------------ scripted environment (harness) *)
 (* user write kinds: 0 put | 1 del | 2 reins | 3 stat (guarded) | 4 statx | 5 ref *)
@@ -358,7 +369,7 @@ Definition wur (s : rstate) (req : N) : N * N * bool := (k_prev s, k_plwm s, req
 (* one iteration of reconciler.go reconcileLoop after the trigger: snapshot, incremental.run
    (single|batch, commitStatus, processRetries, commitStatus), progress.update, prune gating.
    All ready prune-related triggers are consumed by the same round (the harness keeps them apart). *)
-Definition round_gen (fixed : bool) (cf : cfg) (e : env) (s : rstate) : env * rstate :=
+Definition round_gen (fixed efb : bool) (cf : cfg) (e : env) (s : rstate) : env * rstate :=
   (* triggers *)
   let initfire := negb (k_tinit s) && negb (t_pendinit (e_tab e)) in
   let tick := negb (cf_prunei cf =? 0) && (k_tick s <=? e_now e) in
@@ -380,13 +391,13 @@ Definition round_gen (fixed : bool) (cf : cfg) (e : env) (s : rstate) : env * rs
     else single (cf_rs cf) snap chs e q [] 0 0 in
   let cursor := if lastrev =? 0 then k_cursor s else lastrev in
   (* newErrors := incr.commitStatus(); clear(incr.results) *)
-  let (t, q) := commit_status_gen fixed (e_now e) (e_tab e) q res in
+  let (t, q) := commit_status_gen fixed efb (e_now e) (e_tab e) q res in
   let e := set_tab e t in
   (* retryLowWatermark = incr.processRetries(ctx, txn) *)
   let '(e, q, res2, _) := process_retries (N.to_nat (cf_rs cf)) (cf_rs cf) snap e q [] nrec in
   let lwm := r_low_watermark q in
   (* newErrors += incr.commitStatus() *)
-  let (t, q) := commit_status_gen fixed (e_now e) (e_tab e) q res2 in
+  let (t, q) := commit_status_gen fixed efb (e_now e) (e_tab e) q res2 in
   let e := set_tab e t in
   let s' := progress_update (mkR cursor q (k_prev s) (k_plwm s) tinit ext false nexttick) lastrev lwm in
   (* if tableInitialized && (prune || externalPrune) { r.prune(ctx, txn); externalPrune = false } *)
@@ -396,7 +407,7 @@ Definition round_gen (fixed : bool) (cf : cfg) (e : env) (s : rstate) : env * rs
     (e, mkR (k_cursor s') (k_ret s') (k_prev s') (k_plwm s') (k_tinit s') false false (k_tick s'))
   else (e, s').
 
-Definition round := round_gen true.
+Definition round := round_gen true true.
 
 (* some case of the select in reconcileLoop is ready *)
 Definition trigger_ready (cf : cfg) (e : env) (s : rstate) : bool :=
@@ -407,12 +418,12 @@ Definition trigger_ready (cf : cfg) (e : env) (s : rstate) : bool :=
   || (negb (cf_prunei cf =? 0) && (k_tick s <=? e_now e)).
 
 (* run rounds until the loop blocks in the select (synctest.Wait) *)
-Fixpoint settle_gen (fixed : bool) (fuel : nat) (cf : cfg) (e : env) (s : rstate) : env * rstate :=
+Fixpoint settle_gen (fixed efb : bool) (fuel : nat) (cf : cfg) (e : env) (s : rstate) : env * rstate :=
   match fuel with
   | O => (e, s)
-  | S f => if trigger_ready cf e s then let (e, s) := round_gen fixed cf e s in settle_gen fixed f cf e s else (e, s)
+  | S f => if trigger_ready cf e s then let (e, s) := round_gen fixed efb cf e s in settle_gen fixed efb f cf e s else (e, s)
   end.
-Definition settle := settle_gen true.
+Definition settle := settle_gen true true.
 
 Definition set_now (e : env) (t : N) : env :=
   mkEnv (e_tab e) t (e_attempts e) (e_faults e) (e_hooks e) (e_foff e) (e_ver e) (e_urevs e) (e_calls e) (e_target e).
@@ -428,7 +439,7 @@ Definition next_event (cf : cfg) (e : env) (s : rstate) (until : N) : option N :
   end.
 
 (* time.Sleep(until - now) in the bubble followed by synctest.Wait *)
-Fixpoint advance_gen (fixed : bool) (fuel : nat) (sfuel : nat) (cf : cfg) (e : env) (s : rstate) (until : N) : env * rstate :=
+Fixpoint advance_gen (fixed efb : bool) (fuel : nat) (sfuel : nat) (cf : cfg) (e : env) (s : rstate) (until : N) : env * rstate :=
   match fuel with
   | O => (set_now e until, s)
   | S f =>
@@ -436,11 +447,11 @@ Fixpoint advance_gen (fixed : bool) (fuel : nat) (sfuel : nat) (cf : cfg) (e : e
     | None => (set_now e until, s)
     | Some t =>
       let e := set_now e (N.max t (e_now e)) in
-      let (e, s) := settle_gen fixed sfuel cf e s in
-      advance_gen fixed f sfuel cf e s until
+      let (e, s) := settle_gen fixed efb sfuel cf e s in
+      advance_gen fixed efb f sfuel cf e s until
     end
   end.
-Definition advance := advance_gen true.
+Definition advance := advance_gen true true.
 
 Definition env0 (cf : cfg) : env := mkEnv (t_empty (cf_init cf)) 0 [] [] [] false 0 [] [] [].
 Definition rstate0 (cf : cfg) : rstate :=
